@@ -2912,43 +2912,22 @@ void mmd_d_string_convert_to_file(DString * source, unsigned long extensions, sh
 void mmd_engine_convert_to_file(mmd_engine * e, short format, const char * directory, const char * filepath) {
 	FILE * output_stream;
 
-	DString * output = d_string_new("");
+	// Write exactly what mmd_engine_convert_to_data() produces for this format
+	DString * result = mmd_engine_convert_to_data(e, format, directory);
 
-	mmd_engine_parse_string(e);
-
-	mmd_engine_export_token_tree(output, e, format);
-
-	// Now we have the input source string, the output string, the (modified) parse tree, and engine stacks
-
-	switch (format) {
-		case FORMAT_EPUB:
-			epub_write_wrapper(filepath, output, e, directory);
-			break;
-
-		case FORMAT_TEXTBUNDLE:
-			// TODO: Need to implement this
-			break;
-
-		case FORMAT_TEXTBUNDLE_COMPRESSED:
-			textbundle_write_wrapper(filepath, output, e, directory);
-			break;
-
-		default:
-
-			// Basic formats just write to file
-			if (!(output_stream = fopen(filepath, "w"))) {
-				// Failed to open file
-				perror(filepath);
-			} else {
-				fputs(output->str, output_stream);
-				fputc('\n', output_stream);
-				fclose(output_stream);
-			}
-
-			break;
+	if (result == NULL) {
+		return;
 	}
 
-	d_string_free(output, true);
+	if (!(output_stream = fopen(filepath, "wb"))) {
+		// Failed to open file
+		perror(filepath);
+	} else {
+		fwrite(result->str, 1, result->currentStringLength, output_stream);
+		fclose(output_stream);
+	}
+
+	d_string_free(result, true);
 }
 
 
